@@ -1,6 +1,8 @@
 import LPVerif.Lemmas.Skel
 import LPVerif.Generated.Skeletons
 import LPVerif.Model.Kernprof
+import LPVerif.Lemmas.Timer
+import LPVerif.Generated.TimerProg
 /-!
 # C07 — kernprof runs a program the way python itself would
 
@@ -71,5 +73,123 @@ theorem findScript_spec (isFile : String → Bool) (join : String → String →
         · simp [findScript, hf, hd, hj, List.filter_cons, List.find?_cons]
         · simp only [findScript, hf, hd, hj, if_false]
           rw [ih]; simp [hf, hd, hj, List.filter_cons, List.find?_cons]
+
+/-! ## "kernprof terminates promptly once the program has finished": the `-i` timer under every thread schedule
+
+`RepeatedTimer` re-arms itself from the timer thread while the main thread calls `stop()` whenever the program is over.
+The theorems quantify over *all* schedules (`List Choice`: which thread executes its next indivisible instruction, which armed
+timer fires) of the program the translator reads from `kernprof.py` (`Generated.repeatedTimer`). -/
+section timer
+open LPVerif.Timer
+
+/-- the class as it is in the tree passes the decidable well-formedness check -/
+theorem repeatedTimer_wf : Generated.repeatedTimer.wf = true := by decide
+
+/-- **for every well-formed program and every schedule: once `stop()` has returned, no timer object is armed or can still be
+    started — nothing keeps the process alive, whatever the timer thread was doing when `stop()` arrived** -/
+theorem timer_quiet_after_stop (P : Prog) (h : P.wf = true) (sched : List Choice)
+    (hd : (exec P (init P) sched).mainDone = true) : (exec P (init P) sched).quiet = true := by
+  have hI := exec_inv P (wf_spec P h) sched (init P) (init_inv P h)
+  simp only [St.mainDone, Bool.and_eq_true, List.isEmpty_iff] at hd
+  have hst : (exec P (init P) sched).sh.core.stopped = true := by
+    rcases hI.willSeal with hs | ⟨i, hi, _⟩
+    · exact hs
+    · rw [hd.2] at hi; cases hi
+  simp only [St.quiet, Bool.and_eq_true, Bool.not_eq_true', beq_iff_eq]
+  exact ⟨hI.sealed hst, hI.noLeak⟩
+
+/-- at every moment of every schedule: at most one live timer object, none leaked -/
+theorem timer_never_two (P : Prog) (h : P.wf = true) (sched : List Choice) :
+    (exec P (init P) sched).sh.leaked = 0 ∧ (exec P (init P) sched).sh.core.cur.liveN ≤ 1 := by
+  have hI := exec_inv P (wf_spec P h) sched (init P) (init_inv P h)
+  exact ⟨hI.noLeak, by have := hI.count; omega⟩
+
+/-- instructions still to be executed by the timer threads in flight -/
+def left (s : St) : Nat := (s.runs.map List.length).sum
+
+theorem setNth_left (runs : List (List Instr)) (k : Nat) (old new : List Instr) (h : runs[k]? = some old) :
+    ((setNth runs k new).map List.length).sum + old.length = (runs.map List.length).sum + new.length := by
+  induction runs generalizing k with
+  | nil => simp at h
+  | cons a r ih =>
+    cases k with
+    | zero =>
+      simp only [List.getElem?_cons_zero, Option.some.injEq] at h
+      subst h
+      simp only [setNth, List.map_cons, List.sum_cons]; omega
+    | succ k =>
+      simp only [List.getElem?_cons_succ] at h
+      have := ih k h
+      simp only [setNth, List.map_cons, List.sum_cons] at this ⊢; omega
+
+/-- after `stop()`: no choice of the scheduler starts a new timer thread, and every step a thread takes uses up one of the
+    finitely many instructions left (the dump in flight finishes, nothing else happens) -/
+theorem after_stop_winds_down (P : Prog) (s : St) (hI : Inv s) (hd : s.mainDone = true) (c : Choice) :
+    (step P s c).mainDone = true ∧ (step P s c).runs.length = s.runs.length ∧ left (step P s c) ≤ left s ∧
+    (step P s c ≠ s → left (step P s c) < left s) := by
+  simp only [St.mainDone, Bool.and_eq_true, List.isEmpty_iff] at hd
+  have hst : s.sh.core.stopped = true := by
+    rcases hI.willSeal with hs | ⟨i, hi, _⟩
+    · exact hs
+    · rw [hd.2] at hi; cases hi
+  cases c with
+  | main => simp [step, hd.1, hd.2, St.mainDone]
+  | run k =>
+    simp only [step]
+    split
+    · rename_i i rest hR
+      have hl := setNth_left s.runs k (i :: rest) (rest.drop (execCore s.sh.core i).2.2.2) hR
+      have hdrop : (rest.drop (execCore s.sh.core i).2.2.2).length ≤ rest.length := by simp
+      simp only [List.length_cons] at hl
+      refine ⟨by simp [St.mainDone, hd.1, hd.2], by simp [setNth_length], ?_, fun _ => ?_⟩
+      · simp only [left, execInstr]; omega
+      · simp only [left, execInstr]; omega
+    · exact ⟨by simp [St.mainDone, hd.1, hd.2], rfl, Nat.le_refl _, fun h => absurd rfl h⟩
+  | fireCur =>
+    simp only [step]
+    have : s.sh.core.cur ≠ .armed := by
+      intro h
+      have := hI.sealed hst
+      rw [h] at this; cases this
+    simp [this, St.mainDone, hd.1, hd.2]
+  | fireLeaked =>
+    simp only [step]
+    have := hI.noLeak
+    simp [this, St.mainDone, hd.1, hd.2]
+
+/-- … for the class in the tree -/
+theorem kernprof_timer_quiet (sched : List Choice)
+    (hd : (exec Generated.repeatedTimer (init Generated.repeatedTimer) sched).mainDone = true) :
+    (exec Generated.repeatedTimer (init Generated.repeatedTimer) sched).quiet = true :=
+  timer_quiet_after_stop _ repeatedTimer_wf sched hd
+
+/-- the class before the repair of F-C07d (no lock, no `_stopped`) -/
+def legacyTimer : Prog :=
+  { ctor := [.test [.notRunning] 4, .act .nop, .act .newTimer, .act .startTimer, .act (.setRunning true)],
+    run := [.act (.setRunning false), .test [.notRunning] 4, .act .nop, .act .newTimer, .act .startTimer, .act (.setRunning true),
+            .act .dump],
+    stop := [.act .cancel, .act (.setRunning false)] }
+
+theorem legacy_not_wf : legacyTimer.wf = false := by decide
+
+/-- **F-C07d witness**: `stop()` arriving after the timer fired and before `_run` re-armed cancels the timer that has
+    already fired; the new one is armed afterwards and nobody cancels it — `stop()` has returned and a timer is live
+    (replayed on the real class: `corpus/C07/f-c07d-timer-race.py`) -/
+theorem legacy_race_witness :
+    let sched : List Choice := [.main, .main, .main, .main, .main,      -- __init__: first timer armed
+                                .fireCur, .run 0,                       -- it fires; _run: is_running = False
+                                .main, .main,                           -- stop(): cancel (too late), is_running = False
+                                .run 0, .run 0, .run 0, .run 0]         -- _run goes on: start() arms the next timer
+    let s := exec legacyTimer (init legacyTimer) sched
+    s.mainDone = true ∧ s.quiet = false ∧ s.sh.core.cur = .armed := by decide
+
+/-- non-vacuity of the theorems for the tree's class: a schedule in which `stop()` arrives in the same window; the timer
+    thread's `start()` then finds `_stopped` set and arms nothing -/
+example :
+    let sched : List Choice := [.main, .fireCur, .run 0, .main, .run 0, .run 0]
+    let s := exec Generated.repeatedTimer (init Generated.repeatedTimer) sched
+    s.mainDone = true ∧ s.quiet = true ∧ s.sh.dumps = 1 ∧ s.runs = [[]] := by decide
+
+end timer
 
 end LPVerif.Props.C07
